@@ -97,6 +97,11 @@ func LoadEngine(patterns []string) (*Engine, error) {
 		} else if _, err := os.Stat(mirror); err == nil {
 			use = mirror
 		}
+		if os.Getenv("GOVC_CONTRACTS") == "mirror" { // development: prefer the working copy
+			if _, err := os.Stat(mirror); err == nil {
+				use = mirror
+			}
+		}
 		if use == "" {
 			continue
 		}
